@@ -28,26 +28,42 @@ KINDS = {
 }
 
 
-def template_fields(t):
+def template_fields(t, depth=0):
     """the keys str.format(**captures) looks up for template t, read off its replacement-field grammar ({{ and }} are literal braces; a field is
-    name[!conversion][:format spec], the name taken verbatim - blanks, dots and brackets included); None for a template str.format cannot read"""
+    name[!conversion][:format spec], the name taken verbatim - blanks, dots and brackets included; a format spec may itself contain replacement
+    fields, {name:>{width}}, and those are looked up too); None for a template str.format cannot read"""
     out, i = [], 0
     while i < len(t):
         c = t[i]
         if c == '{':
-            if t[i + 1:i + 2] == '{':
+            if depth == 0 and t[i + 1:i + 2] == '{':
                 i += 2
                 continue
-            j = t.find('}', i)
-            if j < 0:
+            level, j = 1, i + 1
+            while j < len(t) and level:
+                level += {'{': 1, '}': -1}.get(t[j], 0)
+                j += 1
+            if level:
                 return None
-            field = t[i + 1:j]
-            if '{' in field:
-                return None           # nested replacement fields inside a format spec: outside the templates exercised here
-            out.append(field.split('!')[0].split(':')[0])
-            i = j + 1
+            field = t[i + 1:j - 1]
+            head = field.split('{')[0]
+            name = head.split('!')[0].split(':')[0]
+            if '{' in name or '}' in name:
+                return None
+            before_spec = head.split(':')[0]
+            if '!' in before_spec and len(before_spec.split('!', 1)[1]) != 1:
+                return None           # a conversion is one character, followed by ':' or the end of the field
+            out.append(name)
+            if ':' in field:
+                inner = template_fields(field.split(':', 1)[1], depth + 1)
+                if inner is None:
+                    return None
+                out.extend(inner)
+            elif '{' in field:
+                return None
+            i = j
         elif c == '}':
-            if t[i + 1:i + 2] == '}':
+            if depth == 0 and t[i + 1:i + 2] == '}':
                 i += 2
                 continue
             return None
@@ -162,7 +178,9 @@ def inspect_roundtrip(headers):
 
 # spellings of a template reference that str.format accepts: a reference to a column that is not captured must be refused in every one of them
 TEMPLATE_SPELLINGS = ('{kind:>8}', '{kind!s}', '{kind!r:>4}', '{memo:>8} {kind}', '{memo!s}', '{ kind }', '{}', '{0}', '{kind} {}', '{kind.upper}', '{kind[0]}',
-                      '{kind} {{literal}}', '{kind} {', '{kind} }', 'plain text')
+                      '{kind} {{literal}}', '{kind} {', '{kind} }', 'plain text',
+                      # replacement fields nested in a format spec are looked up too
+                      '{kind:{w}}', '{kind:{}}', '{kind:>{memo}}', '{kind:{kind}}', '{kind:{w}} {memo}', '{memo:<{kind}}{kind:^{w}}')
 
 
 def check_templates_expand():
@@ -174,10 +192,17 @@ def check_templates_expand():
                 sp_ = parse_format_string(fmt, template)
             except ValueError:
                 continue
-            caps = {k: 'v' for k in (sp_.custom_captures or {})}
-            try:
-                sp_.description_template.format(**caps)
-            except Exception as e:
+            err = None
+            for val in ('v', '8'):          # a nested format spec takes its value from a cell: whether THAT is a format spec depends on the row, not on the template
+                caps = {k: val for k in (sp_.custom_captures or {})}
+                try:
+                    sp_.description_template.format(**caps)
+                    err = None
+                    break
+                except Exception as e_:
+                    err = e_
+            if err is not None:
+                e = err
                 O.fail('C18.accepted_template_cannot_be_expanded', {'format': fmt, 'template': template}, 'template.format(**captures) works for a row', '%s: %s' % (type(e).__name__, e),
                        'parse_format_string accepts the template; parsers.parse_generic_csv expands it with str.format(**captures)')
 
